@@ -158,7 +158,7 @@ def audits():
             if rel == "core/tokens.cpp":
                 continue
             if ln == "TOKENLEN":
-                decl = re.search(r"char\s+%s\s*\[\s*TOKENLEN\s*\]" % re.escape(buf), code)
+                decl = re.search(r"char\s+%s\s*\[\s*TOKENLEN(\s*\+\s*\d+)?\s*\]" % re.escape(buf), code)
                 param = re.search(r"char\s*\*\s*%s\b" % re.escape(buf), code)
                 if not decl and not param:
                     fails.append(("tokens_get-buffer:%s:%s" % (rel, buf), "buffer of TOKENLEN bytes", "no such declaration"))
@@ -207,7 +207,7 @@ def oracle(ctx, orc, focus=None):
     # 2. one statement per source, in-process: every CPU with garbage operands, every directive with garbage
     sweep = G.cpu_garbage(ctx, ctx.scale(150, 1500)) + G.directive_garbage(ctx, ctx.scale(6000, 60000))
     sl = ["c16asm " + nvlib.hexs(s) for _, s in sweep]
-    ans = nvlib.run_lines(ctx.harness, sl, timeout=120, shards=64)
+    ans = nvlib.run_lines(ctx.harness, sl, timeout=60, shards=64)
     sw = {}
     for (cls, src), l, a in zip(sweep, sl, ans):
         orc["cases"] += 1
@@ -278,11 +278,13 @@ def oracle(ctx, orc, focus=None):
 
 def canaries(ctx):
     """inputs that reproduce the listed findings (run time not proportional to the input)"""
-    # an image spanning 2^29 addresses: every writer walks all of them (srec prints nothing for the gap)
-    yield "wide-span", ".msp430\n.db 1\n.org 0x1fffffff\n.db 1\n", ["-type", "srec"]
+    # an image spanning 2^30 addresses: every writer walks all of them (srec prints nothing for the gap)
+    yield "wide-span", ".msp430\n.db 1\n.org 0x3fffffff\n.db 1\n", ["-type", "srec"]
     # n labels: every definition and every lookup walks the list
     n = 22000
     yield "quadratic-symbols", "".join("l%d:\n" % i for i in range(n)), []
+    # .repeat copies everything between the location counter at .repeat and at .endr, byte by byte through the page list
+    yield "repeat-org", ".msp430\n.repeat 2\n.org 0x300000\n.endr\n", ["-type", "srec"]
 
 
 def canary_limit(name, nbytes):
